@@ -263,6 +263,8 @@ pub struct Config {
     pub crumb_dir: Option<String>,
     /// run the ambient pass (every phase again under every registered ambient activity)
     pub ambient: bool,
+    /// CPU-seconds one phase may spend in the ambient pass (the check's budget divided by its number of phases)
+    pub ambient_budget: f64,
 }
 
 fn run_one(body: &Body, unit: usize, cx: &mut Cx) -> Verdict {
@@ -593,7 +595,7 @@ pub fn run_phase(ph: &Phase, cfg: &Config) -> PhaseReport {
         let passes: Vec<(usize, bool)> = (0..amb.len()).flat_map(|a| [(a, true), (a, false)]).collect();
         let cpu_main = t0.elapsed().as_secs_f64() * nthreads as f64;
         let per_exec = (cpu_main / (stats.executions.max(1) as f64)).max(2e-8);
-        let budget = if cfg.thorough { 640.0 } else { 40.0 };
+        let budget = cfg.ambient_budget;
         let full = stats.executions as f64 * per_exec * passes.len() as f64 <= budget;
         // jobs: (pass, chunk of the work list); every job runs in a thread of its own so that the activity starts from a clean thread
         let mut reps = std::mem::take(&mut stats.reps);
@@ -725,7 +727,7 @@ fn run_single_q(ph: &Phase, unit: usize, choices: &[u32], thorough: bool, seed: 
 /// explore one work item on the calling thread, recording every execution in `crumb` before it is run (crash localisation)
 pub fn run_item(ph: &Phase, thorough: bool, seed: u64, item: usize, crumb: &str) -> i32 {
     use std::os::unix::fs::FileExt;
-    let cfg = Config { thorough, seed, threads: 1, cap_s: 1e9, known: vec![], order_reps: 0, crumb_dir: None, ambient: false };
+    let cfg = Config { thorough, seed, threads: 1, cap_s: 1e9, known: vec![], order_reps: 0, crumb_dir: None, ambient: false, ambient_budget: 0.0 };
     let (items, _) = work_items(ph, &cfg);
     let Some((unit, fixed)) = items.get(item).cloned() else { machinery("item index out of range") };
     let f = std::fs::OpenOptions::new().create(true).write(true).truncate(true).open(crumb).unwrap_or_else(|e| machinery(&format!("crumb file: {e}")));
@@ -832,6 +834,7 @@ pub fn run_check(chk: Check, thorough: bool, seed: u64, extra_violation: Option<
             std::fs::create_dir_all(&d).ok().map(|_| d)
         },
         ambient: std::env::var("VERIF_AMBIENT").map_or(true, |v| v != "0"),
+        ambient_budget: (if thorough { 1920.0 } else { 120.0 }) / chk.phases.len().max(1) as f64,
     };
     let mut reports = vec![];
     for ph in &chk.phases {
